@@ -1102,7 +1102,12 @@ class C16(PropertyCheck):
                   "(args_unchanged); run/run_statistics return a function of the argument values and the RNG state only, "
                   "hence equal on repetition and equal to a freshly constructed simulator (repeat_equal, fresh_equivalent); "
                   "the lists referred to by results of different runs/records are pairwise different and new (no_alias); "
-                  "load_circuit leaves a used processor holding exactly what a fresh one would (fresh_equivalent_load). "
+                  "load_circuit leaves a used processor holding exactly what a fresh one would (fresh_equivalent_load); "
+                  "results of transformations that end with the deep copy share no gate object and no targets/controls "
+                  "list with their argument, so no in-place change of the result changes the argument "
+                  "(transform_result_independent); noise objects keep their attributes and answer like fresh ones "
+                  "(noise_fresh_equivalent); the coefficient padding stored back by get_qobjevo is the same function of "
+                  "time (pulse_padding_same_function, on the C14 model). "
                   "The model is tied to the code on every run by histories of up to 8 public calls on shared objects with "
                   "deep (vars()-level, arrays by value) snapshots of every argument before and after every call.")
     level_note = ("Trusted: Lean kernel (propext, Classical.choice, Quot.sound); Model/Sim.lean + Model/Heap.lean as the list of "
